@@ -25,7 +25,7 @@ import multiprocessing
 from mc import core
 
 NEEDS_BRIDGEPOINT = False
-BUDGET_S = {'quick': 200, 'thorough': 2700}
+BUDGET_S = {'quick': 3600, 'thorough': 14400}
 ASSUMPTIONS = [
     'worlds = all partial injective successor maps on n labelled instances (n <= 5 quick; thorough adds n = 6 and, '
     'for chain-only worlds and the full ring, n = 7); labels are creation indices, so every creation order is covered',
